@@ -8,6 +8,7 @@
                        remove_dir_all, create_dir_all, to_folder | ingredient) -> read-only reports.
    No proofs here. *)
 From Coq Require Import List Bool.
+From C2PA Require Import Generated.C32_facts.
 Import ListNotations.
 
 (* state of the path given with -o before the run *)
@@ -39,7 +40,7 @@ Record cli := {
   ingredient : bool
 }.
 
-Inductive cpath := PIn | POut | PSidecar | POutChild | PFragDir | PFragSeg | PFragInit.
+Inductive cpath := PIn | POut | POutParent | PSidecar | POutChild | PFragDir | PFragSeg | PFragInit.
 
 Inductive effect :=
 | Remove (p : cpath) | Write (p : cpath) | RemoveTree (p : cpath) | Mkdir (p : cpath)
@@ -55,6 +56,7 @@ Definition exists_before (r : cli) (p : cpath) : bool :=
   match p with
   | PIn => true
   | POut => out_exists r
+  | POutParent => match out r with ONone | ONoParent => false | _ => true end
   | PSidecar => match sc r with SAbsent => false | _ => true end
   | POutChild => out_is_dir r
   | PFragDir => out_is_dir r && (finit r || fseg r)
@@ -81,19 +83,33 @@ Definition exists_step (r : cli) : list effect :=
     else if negb (force r) then [Bail] else []
   else [].
 
-(* if path != output { builder.sign_file(path, output) } else { sign to a temp file; persist over output } *)
+(* only present once the source guards the sidecar write (Generated/C32_facts.v: sidecar_write_guarded; false on
+   the pinned tree, see F-CLI-SIDECAR):  if args.sidecar && sidecar.exists() && !args.force { bail } *)
+Definition sidecar_guard (r : cli) : list effect :=
+  if sidecar_write_guarded && sidecar r && negb (force r) && match sc r with SAbsent => false | _ => true end
+  then [Bail] else [].
+
+(* if path != output { builder.sign_file(path, output) } else { sign to a temp file; persist over output }
+   sign_file: set_asset_from_dest (create_dir_all(parent) when dest is absent), File::open(source),
+   OpenOptions::create(true).truncate(true).open(dest) *)
+Definition sign_file (r : cli) : list effect :=
+  match out r with
+  | ONone => [Fail]
+  | ONoParent => [Mkdir POutParent; Write POut]
+  | _ => [Write POut]
+  end.
 Definition sign_step (r : cli) : list effect :=
   match same r with
   | Same => match out r with OFile => [Write POut] | _ => [Fail] end
-  | Alias => (* the input was reached through the other spelling: it has just been removed *)
-             if out_exists r && force r then [Fail]
-             else match out r with ONoParent | ONone => [Fail] | _ => [Write POut] end
-  | Different => match out r with ONoParent | ONone => [Fail] | _ => [Write POut] end
+  | Alias => (* output != path as PathBufs, yet the same file: remove_file(output) has just removed the input *)
+             if out_exists r && force r then [Fail] else sign_file r
+  | Different => sign_file r
   end.
 
 Definition manifest_file_mode (r : cli) : list effect :=
   if negb (ext_match r) then [Bail]
-  else andthen (exists_step r) (andthen (sign_step r) (andthen (sidecar_step r) (report_step r))).
+  else andthen (exists_step r) (andthen (sidecar_guard r)
+         (andthen (sign_step r) (andthen (sidecar_step r) (report_step r)))).
 
 (* sign_fragmented -> Store::save_to_bmff_fragmented -> add_merkle_for_fragmented (create_new per fragment)
    -> save_jumbf_to_file(init segment) *)
@@ -101,7 +117,8 @@ Definition fragment_sign (r : cli) : list effect :=
   andthen (if out_exists r then [] else [Mkdir POut])
   (andthen (if exists_before r PFragDir then [] else [Mkdir PFragDir])
   (andthen (if exists_before r PFragSeg then [Fail] else [Write PFragSeg])
-           [Write PFragInit; Report])).
+           (* frag_init_guarded: false on the pinned tree, see F-CLI-FRAG-INIT *)
+           (if frag_init_guarded && exists_before r PFragInit then [Fail] else [Write PFragInit; Report]))).
 
 Definition manifest_fragment_mode (r : cli) : list effect :=
   if out_exists r && negb (out_is_dir r) then [Bail]
@@ -142,13 +159,13 @@ Definition no_clobber_b (r : cli) : bool :=
 (* the two known classes *)
 (* F-CLI-SIDECAR: File::create(sidecar) has no existence test *)
 Definition known_sidecar (r : cli) : bool :=
-  negb (early r) && has_manifest r && match fragment r with FNone => true | _ => false end
+  negb sidecar_write_guarded && negb (early r) && has_manifest r && match fragment r with FNone => true | _ => false end
   && sidecar r && match sc r with SFile => true | _ => false end && negb (force r)
-  && ext_match r && match out r with OAbsent => true | _ => false end
+  && ext_match r && match out r with OAbsent | ONoParent => true | _ => false end
   && match same r with Same => false | _ => true end.
 (* F-CLI-FRAG-INIT: fragments are written with create_new, the init segment is overwritten *)
 Definition known_frag_init (r : cli) : bool :=
-  negb (early r) && has_manifest r && match fragment r with FGlob => true | _ => false end
+  negb frag_init_guarded && negb (early r) && has_manifest r && match fragment r with FGlob => true | _ => false end
   && out_is_dir r && finit r && negb (fseg r) && negb (force r).
 Definition known (r : cli) := known_sidecar r || known_frag_init r.
 
@@ -170,6 +187,9 @@ Definition all_cli : list cli :=
 Definition realisable (r : cli) : bool :=
   negb (remote_ok r)
   && match same r with Different => true | _ => match out r with OFile => true | _ => false end end
-  && match out r with ONone => ext_match r && match sc r with SAbsent => true | _ => false end | _ => true end
+  && match out r with
+     | ONone => ext_match r && match sc r with SAbsent => true | _ => false end
+     | ONoParent => match sc r with SAbsent => true | _ => false end
+     | _ => true end
   && (implb (finit r || fseg r) (out_is_dir r && match fragment r with FGlob => true | _ => false end && has_manifest r))
   && match same r with Different => true | _ => ext_match r end.
